@@ -5,7 +5,9 @@
    - what it loads, minus the wallets the history unloaded, equals the
      non-temporary wallets in memory (mem_eq_disk),
    - no two wallets in memory share a fingerprint (fingerprints_unique),
-   - a failed operation left memory and directory views unchanged (failed_op_noop). *)
+   - a failed operation left memory and directory views unchanged (failed_op_noop),
+   - the serialised wallets (all fields, meta.secrets included) agree between memory and
+     fresh start, and read-only / failed calls did not change any serialised wallet. *)
 Definition eqb_view (a b : list wallet) : bool :=
   eq_map a b && (List.length a =? List.length b)%nat.
 Definition eqb_reloaded (a b : reloaded) : bool :=
@@ -22,10 +24,10 @@ Definition unloaded_after (u : list string) (o : op) (e : error) (m_before : lis
   | _, _ => u
   end.
 Fixpoint first_bad (i : Z) (u : list string) (m0 : list wallet) (r0 : reloaded)
-         (l : list (op * error * list wallet * reloaded)) : Z :=
+         (l : list (op * error * list wallet * reloaded * bool)) : Z :=
   match l with
   | [] => -1
-  | (o, e, m, r) :: rest =>
+  | (o, e, m, r, sok) :: rest =>
       let u' := unloaded_after u o e m0 in
       let ok :=
         match r with
@@ -33,10 +35,14 @@ Fixpoint first_bad (i : Z) (u : list string) (m0 : list wallet) (r0 : reloaded)
         | RLoaded ws => eqb_view (not_unloaded u' ws) (non_temp m)
         end
         && nodup_fps [] m
+        (* sok: observed by the harness on the full serialised wallets (meta.secrets included):
+           every wallet in memory that a fresh start also loads serialises to the same bytes,
+           and a read-only or failed call left every serialised wallet in memory unchanged *)
+        && sok
         && match e with None => true | Some msg => negb (String.eqb msg "PANIC") && eqb_view m m0 && eqb_reloaded r r0 end in
       if ok then first_bad (i + 1) u' m r rest else i
   end.
-Definition prop_seq (l : list (op * error * list wallet * reloaded)) : bool :=
+Definition prop_seq (l : list (op * error * list wallet * reloaded * bool)) : bool :=
   first_bad 0 [] [] (RLoaded []) l =? -1.
 Definition pf_seq := Eval vm_compute in failing prop_seq cases_seq.
 Print pf_seq.
@@ -44,5 +50,5 @@ Definition pf_seq_steps := Eval vm_compute in map (first_bad 0 [] [] (RLoaded []
 Print pf_seq_steps.
 (* premise of the theorems on the explored histories (non-vacuity) *)
 Definition premises_ok := Eval vm_compute in
-  count_true (fun l : list (op * error * list wallet * reloaded) => forallb (fun c => wf_op (fst (fst (fst c)))) l) cases_seq.
+  count_true (fun l : list (op * error * list wallet * reloaded * bool) => forallb (fun c => wf_op (fst (fst (fst (fst c))))) l) cases_seq.
 Print premises_ok.
